@@ -128,6 +128,23 @@ CLAIMED = {
         technique="TLA+ spec Serial + TLC model check; TLC-enumerated behaviours replayed on real code; TLC trace "
                   "validation",
         design_ref="5/C28"),
+
+    "C15": dict(
+        category="model_checking",
+        text="Mailbox.tla (holder, counter chain 1..7 with 0 only first, whole exchanges on the wire) and "
+             "LockFile.tla (create O_EXCL / initialise / open / lockf / read / write / unlock, with the "
+             "create-initialise window) are model-checked exhaustively for 2-3 users. In-process: 2-3 asyncio "
+             "tasks doing real sdo_read / expedited sdo_write / coe_request on one simulated terminal with "
+             "varied start orders and delays; the mailbox headers seen by the terminal are validated by TLC. "
+             "Cross-process: TLC enumerates system-call schedules for two participants including the creation "
+             "window; each is replayed on the real LockFile / ParallelMailboxLock in two OS processes with "
+             "gated os/fcntl calls, and TLC validates lock outcomes, file bytes and counters.",
+        note="Interleaving at system-call granularity; two participants replayed (three in the model); POSIX "
+             "record-lock semantics are those of the sandbox kernel. Unrelated mail is kept out of these "
+             "scripts (it belongs to C16).",
+        technique="TLA+ specs Mailbox + LockFile, TLC exhaustive model checks; TLC trace validation of real "
+                  "asyncio runs; TLC-enumerated schedules replayed on real code in separate processes",
+        design_ref="5/C15"),
 }
 NOT_YET = "not yet built in this round (planned in DESIGN.md section 5)"
 NOT_APPLICABLE = {}
